@@ -491,6 +491,17 @@ func checkAdminPredicates(c *km.Ctx, s *km.Sem) {
 					if f.Op == token.EQL && ((f.X == ssa.Value(fn.Params[1]) && isConfigElem(f.Y, "AdminUsers")) || (f.Y == ssa.Value(fn.Params[1]) && isConfigElem(f.X, "AdminUsers"))) {
 						return true
 					}
+					// a helper that says whether two lists share an element: configured admin groups x this user's groups
+					if cl, idx := callRes(f.X); cl != nil && idx == 0 && f.Op == token.ILLEGAL && f.Pol {
+						if i, j, isI := intersectPredicate(c, s, km.StaticCallee(cl.Common())); isI {
+							a := km.CallArgs(cl.Common())
+							if i < len(a) && j < len(a) {
+								if (isConfigList(a[i], "AdminGroups") && derivesFromUserGroups(a[j], fn, 0)) || (isConfigList(a[j], "AdminGroups") && derivesFromUserGroups(a[i], fn, 0)) {
+									return true
+								}
+							}
+						}
+					}
 					if list, elem, isM := membership(f); isM {
 						// user ∈ configured admin names
 						if elem == ssa.Value(fn.Params[1]) && isConfigList(list, "AdminUsers") {
